@@ -1,0 +1,12 @@
+//go:build verif
+
+// Contracts for the govc verifier (see /verif/DESIGN.md). Comment-only file.
+package check
+
+//@ # signature recovery of checks: same canonical-signature gate as for transactions (C23, C21)
+//@ func recoverPlain
+//@   serves C23 C21
+//@   let N = 115792089237316195423570985008687907852837564279074904382605163141518161494337
+//@   requires R != nil && S != nil && Vb != nil && Vb.val >= 0
+//@   ensures recid: result1 == nil ==> old(Vb.val) == 27 || old(Vb.val) == 28
+//@   ensures rs: result1 == nil ==> 1 <= old(R.val) && old(R.val) < N && 1 <= old(S.val) && old(S.val) <= div(N, 2)
